@@ -404,7 +404,7 @@ func zzC06WaiterNever() {
 	})
 	vSettle()
 	for _, d := range zzNeverDurations {
-		vAssert(d > time.Duration(1<<62), "the expiry timer of a far-future record was armed with a short or negative duration")
+		vAssert(d > 0, "a timer that fires at once was armed for a record that is far from expired (the waiter spins instead of parking)")
 	}
 	vReach("parked")
 	g, e := st.Get(bg, "a")
@@ -420,7 +420,7 @@ func zzC06WaiterNever() {
 		vAssert(w.err == context.Canceled, "a cancelled waiter did not return the context's error")
 	}
 	for _, d := range zzNeverDurations {
-		vAssert(d > time.Duration(1<<62), "the expiry timer of a far-future record was armed with a short or negative duration")
+		vAssert(d > 0, "a timer that fires at once was armed for a record that is far from expired (the waiter spins instead of parking)")
 	}
 	s.lock.Lock()
 	vAssert(len(s.verChange) == 0, "waiter bookkeeping left behind")
